@@ -70,6 +70,7 @@ type funcRun struct {
 	err  error
 	wall float64
 	presolved bool
+	skipped   []*Obl
 }
 
 func cmdCheck(args []string) int {
@@ -146,6 +147,34 @@ func cmdCheck(args []string) int {
 		r.presolved = true
 		runs = append(runs, r)
 	}
+	// obligations recorded as undecided on the unchanged tree are not claimed: the quick
+	// tier does not spend solver time on them (the thorough tier and --pin do)
+	if *tier != "thorough" && !*pin {
+		if data, err := os.ReadFile(filepath.Join(verifDir, "obligations", *prop+".undecided")); err == nil {
+			base := map[string]bool{}
+			for _, l := range strings.Split(string(data), "\n") {
+				l = strings.TrimSpace(l)
+				if l != "" && !strings.HasPrefix(l, "#") {
+					base[l] = true
+				}
+			}
+			for _, r := range runs {
+				if r.enc == nil || r.presolved {
+					continue
+				}
+				var keep []*Obl
+				for _, o := range r.enc.obls {
+					if base[o.Name] {
+						o.Result, o.Solver = "not-attempted(undecided on the unchanged tree)", "none"
+						r.skipped = append(r.skipped, o)
+						continue
+					}
+					keep = append(keep, o)
+				}
+				r.enc.obls = keep
+			}
+		}
+	}
 	// solve in parallel
 	var wg sync.WaitGroup
 	sem := make(chan struct{}, 6)
@@ -162,6 +191,11 @@ func cmdCheck(args []string) int {
 		}(r)
 	}
 	wg.Wait()
+	for _, r := range runs {
+		if r.enc != nil && len(r.skipped) > 0 {
+			r.enc.obls = append(r.enc.obls, r.skipped...)
+		}
+	}
 	return report(p, *prop, *tier, seed, runs, *pin, *verbose, t0, loadS)
 }
 
@@ -250,6 +284,16 @@ func report(p *Program, prop, tier string, seed int, runs []*funcRun, pin, verbo
 		fmt.Fprintf(&b, "# pinned obligations of %s: discharged on the unchanged tree well under the quick timeout\n", prop)
 		fmt.Fprintf(&b, "# commit %s\n", repoHead())
 		n := 0
+		// an obligation that needs more than 6 s of solver time on the unchanged tree is too
+		// close to the quick timeout to be claimed: it goes to the undecided list instead
+		for _, nm := range names {
+			if o := byName[nm]; o.Result == "unsat" && o.TimeS > 6 {
+				o.Result = "slow(" + fmt.Sprintf("%.0fs", o.TimeS) + "): not claimed"
+			} else if o.Result == "unsat" && strings.Contains(o.Solver, "goal-split") {
+				// found only after the whole query and the per-path queries timed out: not stable enough to claim
+				o.Result = "discharged only by goal-split after timeouts: not claimed"
+			}
+		}
 		for _, nm := range names {
 			if byName[nm].Result == "unsat" {
 				b.WriteString(nm + "\n")
@@ -379,6 +423,7 @@ func report(p *Program, prop, tier string, seed int, runs []*funcRun, pin, verbo
 	// violations
 	os.MkdirAll(filepath.Join(verifDir, "replays", prop), 0o755)
 	violations := 0
+	ceTried := 0
 	var vioLines []string
 	for _, fl := range fails {
 		kf, ok := knownOpen[fl.name]
@@ -401,6 +446,14 @@ func report(p *Program, prop, tier string, seed int, runs []*funcRun, pin, verbo
 			if fl.o.Kind == "order" {
 				rep["note"] = "no iteration-order independence rule applies to this loop any more; the rule engine gives no witness order"
 			} else {
+				if ceTried >= 4 {
+					rep["note"] = "counterexample search skipped (already attempted for 4 failing obligations of this run)"
+					data, _ := json.MarshalIndent(rep, "", " ")
+					os.WriteFile(rp, data, 0o644)
+					vioLines = append(vioLines, fmt.Sprintf("VIOLATION property=%s replay=%s obligation=%s no-failing-input-found", prop, rp, fl.name))
+					continue
+				}
+				ceTried++
 				ce := findCounterexample(p, fl.o)
 				for k, v := range ce.report {
 					rep[k] = v
